@@ -32,6 +32,7 @@ Check(t) ==
     IF pe.exc # "" THEN <<"partial-evaluation-failed:" \o pe.exc, IF SingleBd(e) THEN "single_bd_point_side" ELSE "", 0>>
     ELSE IF AsSet(pe.nv) # Params(e) \ bound THEN <<"necessary-variables-after-binding", IF SingleBd(e) THEN "single_bd_point_side" ELSE "", 0>>
     ELSE IF ~pe.orig_same THEN <<"original-domain-changed", "", 0>>
+    ELSE IF ~HasNode(e, "prod") /\ ~pe.stable THEN <<"earlier-partial-evaluation-changed-by-a-later-one", "", 0>>
     ELSE LET J == IF HasBd(e) THEN {} ELSE {i \in DOMAIN pe.pts : ~NearBd(e, Q(pe.pts[i]), Eps)}
              bad == {i \in J : (pe.bits[i] = 1) # In(e, Q(pe.pts[i]))}
          IN
